@@ -16,6 +16,12 @@ exact-size heap blocks):
       :rord n | :rmask value mask bytecount | :rbin bytes | :rsplit j delimiter-char k    (R = the returned object / element k of the collection)
       :size i | :at i pos | :cmp i j | :cpb i n | :find i start ch                      (observers: one log entry each)
       value = the four strings at the end, then the log entries (sizes as 8 bytes little-endian, truth values as one byte).
+  :col n op_1 .. op_n      ONE SimpleStringCollection through a history of steps (it is destroyed at the end, inside the recorded window):
+      :sp text delimiter   SimpleString(text).split(SimpleString(delimiter), col) -- the delimiter is a byte string of ANY length (empty, one byte, longer)
+      :al n                col.allocate(n)
+      :put i text          col[i] = SimpleString(text), i any size_t (outside the range the collection's spare element is written: lost)
+      :sz | :get i | :snap observers: size() / col[i] for any size_t i / size(), every element and the element behind the last one
+      value = the log of the observers, then the collection as it is at the end (as :snap).
 Observation: <value> <independent reference (std::string/libc) agrees> <every buffer returned once with its size>."""
 import itertools
 from vlib import tz, tb
@@ -47,10 +53,17 @@ RULE = ("per operation: exhaustive over strings of length 0..4 over {a,b} x patt
         "against itself, findFrom incl. NUL, a second subString past the new end, subStringFromTill, split, copy, assignment, lowerCase, printable, +, padding both "
         "ways) and then size, one more +=, a copy and a comparison -- at two (quick) / six (thorough) length scales; the red-team shape exhaustively on short "
         "strings (begin 0..5 x amounts around the remaining length x four tails, directly / through a copy / through an assignment); random chains; "
+        "the COLLECTION as an object with a history (:col): one split on a fresh collection exhaustively over texts of length 0..5 x delimiters of length 0..3 over {a,b} and {a,-} "
+        "(the empty delimiter, every self-overlapping delimiter occurring overlapped -- aa in aaab, -- in a---b --, delimiter equal to / longer than the text, text ending / not "
+        "ending with a multi-byte delimiter), the red-team texts, long runs, high-bit bytes, random texts with delimiters cut out of them; every ordered pair of (producer of n1 "
+        "elements, producer of n2 elements) for n1, n2 in 0..4 over allocate / split at a byte (ending and not ending with it) / split at the empty delimiter / split at an "
+        "overlapping two-byte delimiter -- growing, shrinking, equal sizes, to and from size 0 -- with size() and col[i] for i = 0..max+2 and npos read after each step; third uses, "
+        "allocate on a used collection, writes through operator[] inside and outside the range before the re-use, arrays of 17 / 64 / 300 elements; random histories of 1..8 (quick) / "
+        "1..25 (thorough) steps; "
         "non-trivial = at least one argument string is non-empty or a position is out of range")
 ASSUMPTIONS = ["byte strings without embedded NUL (C strings)", "LP64, size_t = 64 bit", "AtoI/AtoU: the digit string read fits the result type (int / unsigned; every run of at most 9 digits does) -- beyond that AtoI is signed overflow: same contract as atoi",
                "StrNCpy/copyToBuffer/MemCmp are called with buffers at least as large as their contract requires",
-               "padding character and split delimiter are non-NUL bytes; inside operation sequences replace(char, char) does not write NUL (the single operation :replc does)",
+               "padding character and the one-byte delimiter of :split / :rsplit are non-NUL bytes; the delimiter of :col :sp is a byte string of any length without NUL; allocate(n) with n < 65536; inside operation sequences replace(char, char) does not write NUL (the single operation :replc does)",
                "the harness holds the result object of a sequence as the very object the operation returned (C++17 guaranteed elision of the returned prvalue into a member); "
                "whether the named local inside the library function is itself elided (NRVO) is the compiler's choice -- the model allows either: buffers may carry slack"]
 ALPHA = [0x61, 0x62, 0x41, 0x42, 0x2e, 0x20, 0x0a, 0x09, 0x01, 0x7f, 0x80, 0xff, 0x31, 0x5a, 0x5b, 0x40, 0x7a, 0x0d, 0x07, 0x1f]
@@ -60,6 +73,8 @@ GROUP1 = ["strlen", "strcmp", "strncmp", "strstr", "memcmp", "contains", "contai
 GROUP2 = ["repls", "printable", "append", "plus", "copybuf", "fmt"]
 GROUP3 = ["atoi", "atou", "bytes"]       # number parsing; "bytes" = the per-byte sweeps of every character predicate
 GROUP4 = ["repeat", "pad", "split", "fromtill", "masked", "binary", "seq", "chain"]     # life cycle: allocation pairing on every operation and on sequences
+GROUP5 = ["coll"]                        # the collection as an object with a history; split with delimiters of every length
+COL_ARITY = {":sp": 2, ":al": 1, ":put": 2, ":sz": 0, ":get": 1, ":snap": 0}
 SEQ_ARITY = {":set": 2, ":asg": 2, ":app": 2, ":appc": 2, ":low": 2, ":sub": 4, ":rc": 3, ":rs": 3, ":prt": 2, ":pad": 3, ":fmt": 3, ":rep": 3, ":plus": 3,
              ":rnew": 1, ":rcopy": 1, ":rsub": 3, ":rsub1": 2, ":rft": 3, ":rlow": 1, ":rprt": 1, ":rplus": 2, ":rfmt": 2, ":rrep": 2, ":rord": 1, ":rmask": 3,
              ":rbin": 1, ":rsplit": 3, ":size": 1, ":at": 2, ":cmp": 2, ":cpb": 2, ":find": 3}
@@ -625,9 +640,139 @@ def gen_life(ops, tier, rng):
     return out
 
 
+# ---------------------------------------------------------------- the collection as an object with a history; delimiters of every length
+def col(ops):
+    return ":col %x %s" % (len(ops), " ".join(ops))
+
+
+def col_split(t):
+    """the steps of a :col scenario as token lists"""
+    ops, k = [], 2
+    while k < len(t):
+        n = COL_ARITY.get(t[k])
+        if n is None:
+            break
+        ops.append(t[k:k + 1 + n])
+        k += 1 + n
+    return ops
+
+
+def ref_split(a, d):
+    """textbook tokens (python side, only for classify / generator shaping -- the judge is the Coq spec)"""
+    out, pos = [], 0
+    while pos < len(a):
+        f = a.find(d, pos)
+        if f < 0 or f >= len(a):
+            break
+        out.append(a[pos:f + 1]); pos = f + 1
+    if not a.endswith(d):
+        out.append(a[pos:])
+    return out
+
+
+def text_with_tokens(rng, n, d=b",", ending=False, alpha=(0x61, 0x62, 0x63)):
+    """a text that splits at the one-byte delimiter d into exactly n tokens (n >= 1; ending: the last token ends with d)"""
+    toks = [nstr(rng, rng.randint(0 if (ending or k < n - 1) else 1, 3), alpha) for k in range(n)]
+    txt = d.join(toks) + (d if ending else b"")
+    return txt if len(ref_split(txt, d)) == n else d.join([b"t%d" % k for k in range(n)]) + (d if ending else b"")
+
+
+def col_reads(n):
+    """observers after a step that should leave n elements: size, every element, the first ones outside, far outside"""
+    return [":sz"] + [":get %x" % i for i in range(0, n + 3)] + [":get %x" % NPOS]
+
+
+def col_producers(rng, n):
+    """steps that should leave the collection with exactly n elements"""
+    out = [[":al %x" % n]]
+    if n == 0:
+        out.append([":sp $ $"])                                   # "".split(""): no token at all
+        out.append([":sp %s $" % tb(b"")])
+    else:
+        out.append([":sp %s %s" % (tb(text_with_tokens(rng, n)), tb(b","))])
+        out.append([":sp %s %s" % (tb(text_with_tokens(rng, n, ending=True)), tb(b","))])
+        out.append([":sp %s $" % tb(nstr(rng, n))])               # the empty delimiter: every byte a token
+        if n >= 2:
+            out.append([":sp %s %s" % (tb(b"x" + b"-" * n + b"y"), tb(b"--"))])      # n - 1 overlapping occurrences of "--" and the rest
+    return out
+
+
+def random_col_step(rng, size_hint):
+    c = rng.random()
+    idx = rng.choice([0, 1, 2, 3, 5, max(size_hint - 1, 0), size_hint, size_hint + 1, 64, NPOS, 1 << 63])
+    if c < 0.30:
+        a = nstr(rng, rng.randint(0, 9), (0x61, 0x61, 0x62, 0x2c, 0x2d))
+        d = rng.choice([b",", b"-", b"a", b"aa", b"--", b"ab", b"", b"a,", a[:2], a[-2:], a, a + b"a", nstr(rng, rng.randint(0, 3), (0x61, 0x62, 0x2c, 0x2d))])
+        return ":sp %s %s" % (tb(a), tb(d))
+    if c < 0.42:
+        return ":al %x" % rng.choice([0, 0, 1, 2, 3, 5, 8, 17, 64, 300])
+    if c < 0.55:
+        return ":put %x %s" % (idx, tb(nstr(rng, rng.randint(0, 4))))
+    if c < 0.70:
+        return ":sz"
+    if c < 0.92:
+        return ":get %x" % idx
+    return ":snap"
+
+
+def gen_coll(tier, rng):
+    out = []
+    quick = tier == "quick"
+    # (1) ONE split on a fresh collection, delimiters of every length: exhaustive over short texts x short delimiters over two alphabets
+    #     (every self-overlapping delimiter aa, aaa, abab.., --, delimiter = text, longer than the text, text ending / not ending with it, empty)
+    seen = set()
+    for alpha, tl, dl in ((b"ab", 5, 3), (b"a-", 5, 3), (b"ab", 7 if not quick else 6, 1)):
+        for a in small_strings(alpha, tl):
+            for d in small_strings(alpha, dl):
+                if (a, d) not in seen:
+                    seen.add((a, d)); out.append(col([":sp %s %s" % (tb(a), tb(d))]))
+    for a, d in ((b"xx--yy---zz", b"--"), (b"aaab", b"aa"), (b"key====value", b"=="), (b"aaa", b"aa"), (b"aaaaaa", b"aa"), (b"abababab;", b"abab"), (b"a---b", b"--"),
+                 (b"a--", b"--"), (b"--", b"--"), (b"-", b"--"), (b"", b"--"), (b"abc", b"abc"), (b"abcabc", b"abc"), (b"ab", b"abc"), (b"a--b--c", b"--"), (b"a--b--c--", b"--"),
+                 (b"one, two, three", b", "), (b"one, two, three, ", b", "), (b"\r\n\r\n", b"\r\n"), (b"\r\n\n\r\n", b"\r\n"), (b"\x80\xff\x80\xff\x80", b"\x80\xff\x80"), (b"\xff\xff\xff", b"\xff\xff"),
+                 (b"a" * 40, b"a" * 39), (b"a" * 40, b"a" * 40), (b"a" * 40, b"a" * 41), (b"ab" * 30 + b"a", b"aba"), (b"x" * 100 + b"==" + b"y" * 130 + b"===", b"==")):
+        out.append(col([":sp %s %s" % (tb(a), tb(d))]))
+    for _ in range(300 if quick else 10000):
+        a = rstr(rng, 0, 30, [0x61, 0x61, 0x62, 0x2d, 0x2c, 0x80])
+        c = rng.random()
+        if a and c < 0.5:
+            i = rng.randrange(len(a)); d = a[i:i + rng.randint(1, 4)]
+        elif c < 0.6:
+            d = a
+        elif c < 0.7:
+            d = a + rstr(rng, 1, 2, [0x61])
+        elif c < 0.8:
+            d = a[-rng.randint(1, 3):] if a else b""
+        else:
+            d = rstr(rng, 0, 3, [0x61, 0x62, 0x2d])
+        out.append(col([":sp %s %s" % (tb(a), tb(d))]))
+    # (2) the collection used AGAIN: every ordered pair of (producer of n1 elements, producer of n2 elements), n1, n2 in 0..4 -- growing,
+    #     shrinking, equal sizes, to and from size 0 -- with size() and col[i] inside and outside the range read after each step
+    sizes = (0, 1, 2, 3, 4)
+    for n1 in sizes:
+        for n2 in sizes:
+            for p1 in col_producers(rng, n1):
+                for p2 in col_producers(rng, n2):
+                    out.append(col(p1 + col_reads(n1) + p2 + col_reads(max(n1, n2))))
+    #     a third use that is longer again, allocate() on a used collection, writes through operator[] inside / outside the range before the re-use
+    for n1, n2, n3 in ((4, 2, 5), (2, 2, 2), (5, 0, 1), (1, 3, 2), (3, 1, 3), (0, 0, 4), (6, 5, 4)):
+        for _ in range(2 if quick else 12):
+            p1, p2, p3 = (rng.choice(col_producers(rng, n)) for n in (n1, n2, n3))
+            out.append(col(p1 + [":sz"] + p2 + col_reads(n1) + p3 + [":snap", ":al %x" % n3, ":snap"]))
+            out.append(col(p1 + [":put 0 " + tb(b"w0"), ":put %x %s" % (max(n1 - 1, 0), tb(b"wl")), ":put %x %s" % (n1, tb(b"out")), ":put %x %s" % (NPOS, tb(b"far")), ":snap"]
+                           + p2 + col_reads(max(n1, n2))))
+    for big in (17, 64, 300):
+        out.append(col([":al %x" % big, ":put %x %s" % (big - 1, tb(b"last")), ":sp %s %s" % (tb(b"x,y"), tb(b",")), ":get 2", ":get %x" % (big - 1), ":sz",
+                        ":sp %s $" % tb(b"q" * big), ":get %x" % (big - 1), ":get %x" % big, ":al 1", ":get 1"]))
+    # (3) random histories
+    for _ in range(400 if quick else 15000):
+        hint = rng.choice([0, 1, 2, 3, 5])
+        out.append(col([random_col_step(rng, hint) for _ in range(rng.randint(1, 8 if quick else 25))]))
+    return out
+
+
 def generate(tier, rng):
     ops = set(GROUP1 + GROUP2 + GROUP3 + GROUP4)
-    return gen_life(ops, tier, rng) + gen_numbers(ops, tier, rng) + gen_ops(ops, tier, rng)
+    return gen_coll(tier, rng) + gen_life(ops, tier, rng) + gen_numbers(ops, tier, rng) + gen_ops(ops, tier, rng)
 
 
 def nontrivial(s):
@@ -654,6 +799,36 @@ def classify(s):
                     L = (len(ops[k - 1][2]) - 1) // 2; b = int(x[2], 16); m = int(x[3], 16)
                     labels.append("chain: %s subString then %s" % ("truncating" if b < L and m < L - b else "non-truncating", y[0]))
         return labels
+    if t[0] == ":col":
+        ops = col_split(t)
+        labels.append("col-length:" + ("1" if len(ops) == 1 else "2-5" if len(ops) <= 5 else "6-12" if len(ops) <= 12 else ">12"))
+        labels += sorted(set("col has " + o[0] for o in ops))
+        size, used = 0, False
+        for o in ops:
+            if o[0] == ":sp":
+                a = bytes.fromhex(o[1][1:]); d = bytes.fromhex(o[2][1:])
+                labels.append("split: delimiter of %s" % ("0 bytes" if not d else "1 byte" if len(d) == 1 else "2+ bytes"))
+                if len(d) >= 2:
+                    toks = ref_split(a, d)
+                    if len(d) > len(a):
+                        labels.append("split: delimiter longer than the text")
+                    if d == a:
+                        labels.append("split: delimiter equal to the text")
+                    if a.endswith(d):
+                        labels.append("split: text ends with a multi-byte delimiter")
+                    if len(toks) - (0 if a.endswith(d) else 1) > a.count(d):
+                        labels.append("split: delimiter occurs overlapping itself")
+                new = len(ref_split(a, d))
+            elif o[0] == ":al":
+                new = int(o[1], 16)
+            else:
+                if o[0] in (":get", ":put"):
+                    labels.append("col: %s %s the range" % (o[0], "inside" if int(o[1], 16) < size else "outside"))
+                continue
+            if used:
+                labels.append("col re-used: %s" % ("to size 0" if new == 0 else "from size 0" if size == 0 else "shrinking" if new < size else "growing" if new > size else "same size"))
+            size, used = new, True
+        return sorted(set(labels))
     strs = [x for x in t[1:] if x.startswith("$")]
     if strs:
         n = (len(strs[0]) - 1) // 2
@@ -696,6 +871,14 @@ def signature(s, o):
     what = t[0]
     if t[0] == ":seq" and any(x in R_PRODUCERS for x in t):
         what = ":seq with an operation applied in place to a returned object"
+    if t[0] == ":col":
+        ops = col_split(t)
+        fills = [o for o in ops if o[0] in (":sp", ":al")]
+        if len(fills) >= 2:
+            what = ":col, a collection filled more than once"
+        elif fills and fills[0][0] == ":sp":
+            dl = (len(fills[0][2]) - 1) // 2
+            what = ":col, one split with a delimiter of %s" % ("0 bytes" if dl == 0 else "1 byte" if dl == 1 else "2+ bytes")
     return "%s => %s" % (what, kind)
 
 
@@ -714,6 +897,17 @@ def shrink(s):
                     for c in sorted(set([v // 2, v - 1])):
                         o2 = o[:q] + ["%x" % c] + o[q + 1:]
                         yield seq([" ".join(x) for x in ops[:k] + [o2] + ops[k + 1:]])
+    if t[0] == ":col":
+        ops = col_split(t)
+        for k in range(len(ops)):               # drop one step
+            rest = ops[:k] + ops[k + 1:]
+            if rest:
+                yield col([" ".join(o) for o in rest])
+        for k, o in enumerate(ops):             # smaller sizes / indices
+            if o[0] in (":al", ":get", ":put") and o[1] != "0":
+                v = int(o[1], 16)
+                for c in sorted(set([v // 2, v - 1])):
+                    yield col([" ".join(x) for x in ops[:k] + [[o[0], "%x" % c] + o[2:]] + ops[k + 1:]])
     for i, x in enumerate(t):
         if x.startswith("$") and len(x) > 1:
             b = bytes.fromhex(x[1:])
@@ -736,7 +930,11 @@ LEVEL_TEXT = ("Machine-checked (Coq) theorems over a bounds-checked executable m
               "terminator -- the recorded buffer size need not be size() + 1 -- and every observer (size, isEmpty, at, comparisons, copyToBuffer, findFrom) reports "
               "the textbook answer (C13_sequence_spec, C13_sequence_step_spec, C13_sequence_observers_spec, the *_slack_spec theorems, C13_subString_then_append); repeat, padding, "
               "split (loop lemmas of C12_Safe.v reused), subStringFromTill, StringFromMaskedBits and StringFromBinary return their textbook values "
-              "(C13_scn_meets_spec: every valid scenario of the check's scenario language).")
+              "(C13_scn_meets_spec: every valid scenario of the check's scenario language). The SimpleStringCollection as an object with a history: split() with a delimiter of EVERY "
+              "length into a collection in ANY earlier state is Ok and leaves exactly the C strings of the textbook tokens (C13_split_any_delimiter_spec; the textbook split characterised by "
+              "C13_split_textbook_token_count / _concat / _delimiter_tail / _single_byte), every history of split / allocate / col[i] = s / size() / col[i] keeps the invariant and every "
+              "observer reports the textbook answer (C13_collection_history_spec, _step_spec, _observers_spec); an allocate() that keeps a big-enough array and a scan stepping over the "
+              "whole delimiter are refuted variants.")
 LEVEL_NOTE = ("Partial for memory safety: the proofs are about the bounds-checked model; real heap accesses are seen only by ASan in the run. Trusted: "
               "Coq kernel, extraction (ExtrOcamlBasic), harness, generators, LP64. Modelled not verified: the C++ itself; vsnprintf's formatting is an "
               "oracle (decimal/hex rendering is specified and compared, not derived from libc).")
